@@ -534,7 +534,7 @@ void h_pflood_cmp(void)
 """
 G_PF_CMP = Group(
     name="pflood.heap_order", units=[pflood_cmp], harness=H_PF_CMP, entry="h_pflood_cmp", backend="sat", timeout=120, min_obligations=6,
-    replay="replay/routing.cpp",
+    replay="replay/pflood_history.cpp",
     clause="pflood_node::operator> (the order of the open-node heap) is a strict order that is TOTAL on nodes with different indices and "
            "compares elevations first: the popped element is a function of the queue content, not of the insertion order of the base levels "
            "(iteration order of the unordered base-level set)")
